@@ -542,7 +542,21 @@ Definition cd_step (f : nat) (rep_end : option Z) (acc : result (list node)) (op
   | _ => Ok cur
   end.
 
-Lemma condition_detect_unfold f sts e :
+(* no forward jump of the list leaves the loop: the conversion of exit jumps changes nothing *)
+Definition jump_in (e : option Z) (st : node) : Prop := match st with Stmt _ (Jump _ t) => lt_opt e t = false | _ => True end.
+Lemma exit_jumps_same e sts : Forall (jump_in e) sts -> exit_jumps sts e = sts.
+Proof.
+  intros H. destruct e as [x|]; [|reflexivity]. cbn [exit_jumps].
+  induction H as [|st sts Hst _ IH]; [reflexivity|]. cbn [map]. rewrite IH.
+  destruct st; try reflexivity. destruct st; try reflexivity. cbn [jump_in lt_opt] in Hst. rewrite Hst. reflexivity.
+Qed.
+Lemma within_jump_in lo hi e st : within lo hi st -> le_opt hi e -> jump_in e st.
+Proof.
+  intros (_ & _ & _ & Hj) Hle. destruct st; try exact I. destruct st; try exact I. cbn [jump_in jump_le] in *.
+  apply (lt_opt_le hi e addr Hle Hj).
+Qed.
+
+Lemma condition_detect_unfold f sts e : exit_jumps sts e = sts ->
   condition_detect (S f) sts e =
   let! sts1 := map_result (fun st =>
       match st with
@@ -551,7 +565,7 @@ Lemma condition_detect_unfold f sts e :
       | _ => Ok st
       end) sts in
   fold_left (cd_step f e) (scan_jz e sts1) (Ok sts1).
-Proof. reflexivity. Qed.
+Proof. intros H. cbn [condition_detect]. rewrite H. reflexivity. Qed.
 
 Lemma last_case {A} (l : list node) (X : A) (Y : Z -> Z -> list node -> A) (W : A) :
   l <> [] -> Forall (fun st => noj st = true) l ->
@@ -682,15 +696,20 @@ Qed.
 Lemma map_result_same {A} (F : A -> result A) l : Forall (fun x => F x = Ok x) l -> map_result F l = Ok l.
 Proof. induction 1 as [|x l H _ IH]; [reflexivity|]. cbn [map_result]. rewrite H, IH. reflexivity. Qed.
 
-Lemma condition_detect_unfold' f sts e :
+Lemma condition_detect_unfold' f sts e : exit_jumps sts e = sts ->
   condition_detect (S f) sts e = let! sts1 := map_result (cd_map f) sts in fold_left (cd_step f e) (scan_jz e sts1) (Ok sts1).
-Proof. reflexivity. Qed.
+Proof. intros H. cbn [condition_detect]. rewrite H. reflexivity. Qed.
+Lemma quiet_jump_in e st : quiet st = true -> jump_in e st.
+Proof. destruct st; try discriminate. destruct st; try discriminate; intros _; exact I. Qed.
 
 Theorem cd_idem : forall f e l lo hi D0, wp lo hi l -> (depths l < f)%nat -> Forall (fun st => if_stmt st = true) D0 ->
   condition_detect f (D0 ++ trees l) e = Ok (D0 ++ trees l).
 Proof.
   induction f as [|f IHf]; intros e l lo hi D0 Hwp Hd HD; [lia|].
   rewrite condition_detect_unfold'.
+  2:{ apply exit_jumps_same. apply Forall_app. split.
+      - eapply Forall_impl; [|exact HD]. intros x Hx. destruct x; try discriminate Hx. destruct x; try discriminate Hx. exact I.
+      - eapply Forall_impl; [|exact (trees_quiet _ _ _ Hwp)]. intros x Hx. apply quiet_jump_in. exact Hx. }
   assert (Em : map_result (cd_map f) (D0 ++ trees l) = Ok (D0 ++ trees l)).
   { apply map_result_same. apply Forall_app. split.
     - eapply Forall_impl; [|exact HD]. intros x Hx. destruct x; try discriminate Hx. destruct x; try discriminate Hx. reflexivity.
@@ -716,7 +735,7 @@ Qed.
 
 Section Level.
   Variable f : nat.
-  Hypothesis IHcd : forall e l lo hi tail, wp lo hi l -> le_opt hi e -> tail_ok hi tail -> (depths l < f)%nat ->
+  Hypothesis IHcd : forall e l lo hi tail, wp lo hi l -> le_opt hi e -> tail_ok hi tail -> Forall (jump_in e) tail -> (depths l < f)%nat ->
     condition_detect f (flats l ++ tail) e = Ok (trees l ++ tail).
   Hypothesis IHw : forall pj c pe body, wp (pj + 1) pe body -> (depths body < f)%nat ->
     condition_detect f (Stmt pj (Jz pj c (pe + 2)) :: flats body) (Some pe) = Ok (exit_if pj c :: trees body).
@@ -828,7 +847,7 @@ Section Level.
         rewrite Erem. cbn [bind].
         rewrite (break_detect_same (flats body) e hi Hle)
           by (eapply Forall_impl; [|exact HB]; intros x Hx; apply (within_weaken _ _ lo hi x Hx); lia).
-        pose proof (IHcd e body (p + 1) a [] Hb ltac:(destruct e; cbn [le_opt] in *; lia) (Forall_nil _) ltac:(lia)) as Eb.
+        pose proof (IHcd e body (p + 1) a [] Hb ltac:(destruct e; cbn [le_opt] in *; lia) (Forall_nil _) (Forall_nil _) ltac:(lia)) as Eb.
         rewrite !app_nil_r in Eb. rewrite Eb. cbn [bind].
         rewrite last_case; [| apply trees_nonempty; exact Hne | exact (trees_noj _ _ _ Hb)].
         rewrite <- app_assoc. cbn [app]. rewrite replace_code_all_one; [| exact HDnj | exact HRall].
@@ -889,7 +908,7 @@ Section Level.
             - eapply Forall_impl; [|exact HB]. intros x Hx. apply (within_weaken _ _ lo hi x Hx); lia.
             - constructor; [cbn [jump_le J]; lia | constructor]. }
         assert (HTJ : tail_ok jp [J]) by (apply Forall_cons; [split; [reflexivity | cbn [pos_of J]; lia] | apply Forall_nil]).
-        rewrite (IHcd e body (p + 1) jp [J] Hb (Hle_e jp ltac:(lia)) HTJ ltac:(lia)).
+        rewrite (IHcd e body (p + 1) jp [J] Hb (Hle_e jp ltac:(lia)) HTJ ltac:(constructor; [exact (lt_opt_le hi e je Hle Hjh) | constructor]) ltac:(lia)).
         cbn [bind]. rewrite rev_app_distr. cbn [rev app J].
         rewrite (lt_opt_le hi e je Hle Hjh).
         (* the else part *)
@@ -912,7 +931,7 @@ Section Level.
         rewrite Erem2. cbn [bind].
         rewrite (break_detect_same (flats ebody) e hi Hle)
           by (eapply Forall_impl; [|exact HE]; intros x Hx; apply (within_weaken _ _ lo hi x Hx); lia).
-        pose proof (IHcd e ebody eb je [] He (Hle_e je Hjh) (Forall_nil _) ltac:(lia)) as Eb.
+        pose proof (IHcd e ebody eb je [] He (Hle_e je Hjh) (Forall_nil _) (Forall_nil _) ltac:(lia)) as Eb.
         rewrite !app_nil_r in Eb. rewrite Eb. cbn [bind]. rewrite rev_involutive.
         rewrite <- app_assoc. cbn [app]. rewrite replace_code_all_one; [| exact HDnj | exact HRall].
         rewrite <- app_assoc. reflexivity. }
@@ -936,7 +955,7 @@ Section Level.
 End Level.
 
 (* ---- condition_detect on lists (CD) and on raw loop bodies (W), together by induction on the fuel ---- *)
-Definition CD (f : nat) : Prop := forall e l lo hi tail, wp lo hi l -> le_opt hi e -> tail_ok hi tail -> (depths l < f)%nat ->
+Definition CD (f : nat) : Prop := forall e l lo hi tail, wp lo hi l -> le_opt hi e -> tail_ok hi tail -> Forall (jump_in e) tail -> (depths l < f)%nat ->
   condition_detect f (flats l ++ tail) e = Ok (trees l ++ tail).
 Definition WB (f : nat) : Prop := forall pj c pe body, wp (pj + 1) pe body -> (depths body < f)%nat ->
   condition_detect f (Stmt pj (Jz pj c (pe + 2)) :: flats body) (Some pe) = Ok (exit_if pj c :: trees body).
@@ -954,11 +973,14 @@ Qed.
 
 Theorem cd_all : forall f, CD f /\ WB f.
 Proof.
-  induction f as [|f [IHcd IHw]]; [split; [intros e l lo hi tail _ _ _ Hd | intros pj c pe body _ Hd]; lia|].
+  induction f as [|f [IHcd IHw]]; [split; [intros e l lo hi tail _ _ _ _ Hd | intros pj c pe body _ Hd]; lia|].
   split.
   - (* a list *)
-    intros e l lo hi tail Hwp Hle HT Hd.
-    rewrite condition_detect_unfold'. rewrite (map_loops_tail f IHcd IHw l lo hi tail Hwp Hd HT). cbn [bind].
+    intros e l lo hi tail Hwp Hle HT HTj Hd.
+    rewrite condition_detect_unfold'.
+    2:{ apply exit_jumps_same. apply Forall_app. split; [|exact HTj].
+        eapply Forall_impl; [|exact (flats_within _ _ _ Hwp)]. intros x Hx. exact (within_jump_in lo hi e x Hx Hle). }
+    rewrite (map_loops_tail f IHcd IHw l lo hi tail Hwp Hd HT). cbn [bind].
     destruct (marks_facts lo hi l Hwp) as (Hwm & Etr & Edp & Ejz & _).
     unfold scan_jz. rewrite fold_left_app.
     destruct (scan_flats e lo hi (marks l) Hwm Hle (Build_scan_state None None false []) ltac:(split; [exact I | right; exact I])) as [Hok Ej].
@@ -968,6 +990,8 @@ Proof.
     intros pj c pe body Hwp Hd.
     pose proof (wp_le _ _ _ Hwp) as Hbe.
     rewrite condition_detect_unfold'.
+    2:{ apply exit_jumps_same. constructor; [exact I|].
+        eapply Forall_impl; [|exact (flats_within _ _ _ Hwp)]. intros x Hx. apply (within_jump_in (pj + 1) pe (Some pe) x Hx). cbn [le_opt]. lia. }
     change (Stmt pj (Jz pj c (pe + 2)) :: flats body) with ([Stmt pj (Jz pj c (pe + 2))] ++ flats body).
     rewrite (map_result_app (cd_map f) [Stmt pj (Jz pj c (pe + 2))] (flats body) [Stmt pj (Jz pj c (pe + 2))] (flats (marks body)) eq_refl
                             (map_loops f IHcd IHw body (pj + 1) pe Hwp Hd)).
@@ -992,7 +1016,7 @@ Proof.
     rewrite app_nil_r, Etr. reflexivity.
 Qed.
 
-Theorem condition_detect_nest f e l lo hi tail : wp lo hi l -> le_opt hi e -> tail_ok hi tail -> (depths l < f)%nat ->
+Theorem condition_detect_nest f e l lo hi tail : wp lo hi l -> le_opt hi e -> tail_ok hi tail -> Forall (jump_in e) tail -> (depths l < f)%nat ->
   condition_detect f (flats l ++ tail) e = Ok (trees l ++ tail).
 Proof. exact (proj1 (cd_all f) e l lo hi tail). Qed.
 End WC.
@@ -1121,7 +1145,7 @@ Qed.
 Theorem detect_nest l lo hi : wpw lo hi l -> detect (flats l) = Ok (fins l).
 Proof.
   intros Hwp. unfold detect. destruct (depth_le_count l lo hi Hwp) as [H1 H2].
-  pose proof (condition_detect_nest (S (S (stmts_count (flats l)))) None l lo hi [] Hwp I (Forall_nil _) ltac:(lia)) as E.
+  pose proof (condition_detect_nest (S (S (stmts_count (flats l)))) None l lo hi [] Hwp I (Forall_nil _) (Forall_nil _) ltac:(lia)) as E.
   rewrite !app_nil_r in E. rewrite E. cbn [bind].
   apply (loop_detect_nest _ l lo hi Hwp). lia.
 Qed.
